@@ -156,4 +156,154 @@ theorem largestComponent_closed {s : HG} (h : WF s) {c : List PyId} (hc : larges
   obtain ⟨v, hv, rfl⟩ := components_mem c (by rw [hcomp]; simp)
   exact ⟨plainBfs_edgeClosed h hv, (plainBfs_closed h hv).2.1⟩
 
+
+/-! ### weak removal of a list of nodes (`remove_nodes_from(…)`, `remove_empty=True`) -/
+
+/-- `u` is `t` after the nodes `P` were removed weakly with `remove_empty=True` -/
+structure Outside (t u : HG) (P : List PyId) : Prop where
+  nodes : u.nodes = t.nodes.filter (· ∉ P)
+  memb : u.memb = t.memb
+  mem : ∀ e ∈ t.edges, u.mem e = (t.mem e).filter (· ∉ P)
+  edges : u.edges = t.edges.filter (fun e => (t.mem e).isEmpty || (t.mem e).any (· ∉ P))
+  eattr : u.eattr = t.eattr
+  nattr : u.nattr = t.nattr
+  net : u.net = t.net
+  frozen : u.frozen = t.frozen
+
+theorem Outside.refl (t : HG) : Outside t t [] := by
+  constructor <;> try rfl
+  · simp; exact (List.filter_eq_self.2 (fun _ _ => rfl)).symm
+  · intro e _; simp; exact (List.filter_eq_self.2 (fun _ _ => rfl)).symm
+  · apply (List.filter_eq_self.2 _).symm
+    intro e _
+    cases hm : t.mem e with
+    | nil => simp
+    | cons a l => simp
+
+theorem outside_step {t u : HG} (h : WF t) {P : List PyId} (ho : Outside t u P) {n : PyId}
+    (hn : n ∈ t.nodes) : Outside t (removeNodeWeak u n true) (P ++ [n]) := by
+  obtain ⟨o1, o2, o3, o4, o5, o6, o7, o8⟩ := ho
+  unfold removeNodeWeak
+  constructor
+  · show rm n u.nodes = _
+    rw [o1]; simp only [rm, List.filter_filter]
+    apply List.filter_congr; intro x _
+    by_cases hx : x = n <;> simp [hx]
+  · exact o2
+  · intro e he
+    show (if e ∈ u.memb n then rm n (u.mem e) else u.mem e) = _
+    rw [o2, o3 e he]
+    by_cases hin : e ∈ t.memb n
+    · simp only [hin, if_true, rm, List.filter_filter]
+      apply List.filter_congr; intro x _
+      by_cases hx : x = n <;> simp [hx]
+    · simp only [hin, if_false]
+      apply List.filter_congr; intro x hx
+      have : x ≠ n := by intro hh; subst hh; exact hin (h.e2n e he x hx).2
+      simp [this]
+  · show u.edges.filter (fun e => !(decide (e ∈ u.memb n) && (rm n (u.mem e)).isEmpty && true)) = _
+    rw [o4, List.filter_filter]
+    apply List.filter_congr; intro e he
+    rw [o2, o3 e he]
+    rw [Bool.eq_iff_iff]
+    simp only [Bool.and_true, Bool.and_eq_true, Bool.not_eq_eq_eq_not, Bool.not_true, Bool.and_eq_false_iff,
+      decide_eq_false_iff_not, Bool.or_eq_true, List.isEmpty_iff, List.any_eq_true, decide_eq_true_eq,
+      List.mem_append, List.mem_singleton, not_or, rm, List.filter_filter]
+    constructor
+    · rintro ⟨hgone, hkeep⟩
+      rcases hkeep with hk | ⟨m, hm, hmP⟩
+      · exact Or.inl hk
+      · by_cases hmn : m = n
+        · subst hmn
+          have hin : e ∈ t.memb m := (h.e2n e he m hm).2
+          rcases hgone with hg | hg
+          · exact absurd hin hg
+          · -- the edge keeps a member other than `m`
+            have : ((t.mem e).filter (fun a => decide (a ≠ m) && decide (a ∉ P))) ≠ [] := by
+              intro hc; rw [hc] at hg; simp at hg
+            obtain ⟨m', hm'⟩ := List.exists_mem_of_ne_nil _ this
+            simp only [List.mem_filter, Bool.and_eq_true, decide_eq_true_eq] at hm'
+            exact Or.inr ⟨m', hm'.1, hm'.2.2, hm'.2.1⟩
+        · exact Or.inr ⟨m, hm, hmP, hmn⟩
+    · rintro (hk | ⟨m, hm, hmP, hmn⟩)
+      · refine ⟨Or.inl ?_, Or.inl hk⟩
+        intro hin; have := (h.n2e n hn e hin).2; rw [hk] at this; cases this
+      · refine ⟨Or.inr ?_, Or.inr ⟨m, hm, hmP⟩⟩
+        cases hf : ((t.mem e).filter (fun a => decide (a ≠ n) && decide (a ∉ P))).isEmpty with
+        | false => rfl
+        | true =>
+          have := List.isEmpty_iff.1 hf
+          have hmem : m ∈ (t.mem e).filter (fun a => decide (a ≠ n) && decide (a ∉ P)) := by
+            simp only [List.mem_filter, Bool.and_eq_true, decide_eq_true_eq]; exact ⟨hm, hmn, hmP⟩
+          rw [this] at hmem; cases hmem
+  · exact o5
+  · exact o6
+  · exact o7
+  · exact o8
+
+theorem removeWeak_loop {t : HG} (h : WF t) (l : List PyId) (u : HG) (P : List PyId) (ho : Outside t u P)
+    (hl : l.Nodup) (hd : ∀ n ∈ l, n ∉ P) (hin : ∀ n ∈ l, n ∈ t.nodes) :
+    (bulk (removeNodesItem false true) u l).2 = .ok ∧ Outside t (bulk (removeNodesItem false true) u l).1 (P ++ l) := by
+  induction l generalizing u P with
+  | nil => simp only [bulk, List.append_nil]; exact ⟨trivial, ho⟩
+  | cons n rest ih =>
+    have hnu : n ∈ u.nodes := by
+      rw [ho.nodes, List.mem_filter]; exact ⟨hin n (by simp), by simpa using hd n (by simp)⟩
+    have hstep : removeNodesItem false true u n = (removeNodeWeak u n true, .ok) := by
+      unfold removeNodesItem removeNode; simp [hnu]
+    rw [bulk_cons_ok _ u _ n rest hstep]
+    simp only [List.nodup_cons] at hl
+    have := ih (removeNodeWeak u n true) (P ++ [n]) (outside_step h ho (hin n (by simp))) hl.2 (by
+      intro m hm hmP
+      rcases List.mem_append.1 hmP with hmP | hmP
+      · exact hd m (by simp [hm]) hmP
+      · simp only [List.mem_singleton] at hmP; subst hmP; exact hl.1 hm) (fun m hm => hin m (by simp [hm]))
+    simpa [List.append_assoc] using this
+
+/-- the connected step: everything outside the closed node set `c` goes, whole edges with it -/
+theorem removeOutside_spec {t : HG} (h : WF t) (c : List PyId) (hc : EdgeClosed t c) :
+    (removeNodesFrom t (t.nodes.filter (· ∉ c)) false true).2 = .ok ∧
+    (removeNodesFrom t (t.nodes.filter (· ∉ c)) false true).1.nodes = t.nodes.filter (· ∈ c) ∧
+    (removeNodesFrom t (t.nodes.filter (· ∉ c)) false true).1.edges = t.edges.filter (fun e => (t.mem e).all (· ∈ c)) ∧
+    (∀ e ∈ (removeNodesFrom t (t.nodes.filter (· ∉ c)) false true).1.edges,
+      (removeNodesFrom t (t.nodes.filter (· ∉ c)) false true).1.mem e = t.mem e) ∧
+    (removeNodesFrom t (t.nodes.filter (· ∉ c)) false true).1.memb = t.memb ∧
+    (removeNodesFrom t (t.nodes.filter (· ∉ c)) false true).1.eattr = t.eattr ∧
+    (removeNodesFrom t (t.nodes.filter (· ∉ c)) false true).1.nattr = t.nattr ∧
+    (removeNodesFrom t (t.nodes.filter (· ∉ c)) false true).1.net = t.net := by
+  unfold removeNodesFrom
+  obtain ⟨g1, g2⟩ := removeWeak_loop h (t.nodes.filter (· ∉ c)) t [] (Outside.refl t) (nodup_filter _ h.nodupN)
+    (fun _ _ hx => by cases hx) (fun n hn => (List.mem_filter.1 hn).1)
+  simp only [List.nil_append] at g2
+  generalize (bulk (removeNodesItem false true) t (t.nodes.filter (· ∉ c))).1 = u at *
+  have hX : ∀ x, x ∈ t.nodes → (x ∉ t.nodes.filter (· ∉ c) ↔ x ∈ c) := by
+    intro x hx; simp [List.mem_filter, hx]
+  have hedges : u.edges = t.edges.filter (fun e => (t.mem e).all (· ∈ c)) := by
+    rw [g2.edges]; apply List.filter_congr; intro e he
+    rw [Bool.eq_iff_iff]
+    simp only [Bool.or_eq_true, List.isEmpty_iff, List.any_eq_true, decide_eq_true_eq, List.all_eq_true]
+    constructor
+    · rintro (hk | ⟨m, hm, hmX⟩)
+      · intro x hx; rw [hk] at hx; cases hx
+      · have hmc : m ∈ c := (hX m (h.e2n e he m hm).1).1 hmX
+        exact fun x hx => hc e he m hm hmc x hx
+    · intro hall
+      cases hm : t.mem e with
+      | nil => exact Or.inl rfl
+      | cons a l =>
+        right
+        have ha : a ∈ t.mem e := by rw [hm]; simp
+        exact ⟨a, by simp, (hX a (h.e2n e he a ha).1).2 (hall a ha)⟩
+  refine ⟨g1, ?_, hedges, ?_, g2.memb, g2.eattr, g2.nattr, g2.net⟩
+  · rw [g2.nodes]; apply List.filter_congr; intro x hx
+    rw [Bool.eq_iff_iff]; simp only [decide_eq_true_eq]; exact hX x hx
+  · intro e he
+    rw [hedges] at he
+    obtain ⟨he1, he2⟩ := List.mem_filter.1 he
+    rw [g2.mem e he1]
+    apply List.filter_eq_self.2
+    intro x hx
+    simp only [List.all_eq_true, decide_eq_true_eq] at he2
+    have := (hX x (h.e2n e he1 x hx).1).2 (he2 x hx)
+    exact decide_eq_true this
 end Xgi.C19
